@@ -31,6 +31,11 @@ def main():
                     ex['scheduler_runs'] = vsched.STATS['runs']
                     ex['scheduler_choices'] = vsched.STATS['choices']
                     ex['distinct_schedule_signatures'] = len(vsched.SIGS)
+                from vf import vloop
+                if vloop.STATS['runs']:
+                    ex = res.setdefault('extra', {})
+                    ex['asyncio_loop_runs'] = vloop.STATS['runs']
+                    ex['asyncio_loop_iterations'] = vloop.STATS['iterations']
             except Exception:
                 pass
         except BaseException:
